@@ -251,7 +251,9 @@ func quoteNonString(v rt.Value) (string, bool) {
 		if math.IsNaN(x) {
 			return "(0/0)", true
 		}
-		return strconv.FormatFloat(x, 'g', -1, 64), true
+		// Hexadecimal preserves the value exactly and makes sure it reads back
+		// as a float (e.g. 1.0 is written 0x1p+00, not 1).
+		return strconv.FormatFloat(x, 'x', -1, 64), true
 	case rt.BoolType:
 		return strconv.FormatBool(v.AsBool()), true
 	default:
